@@ -228,6 +228,9 @@ fn exec(h: &Hist, ch: &Chooser) -> Obs {
             }
         })
     });
+    // the clone must go before the context: the last reference has to be dropped by Ctx::drop
+    // inside the runtime
+    drop(store);
     match r {
         Ok(o) => {
             let clean = o.error.is_none() && o.hang.is_none();
@@ -359,7 +362,7 @@ fn parts(thorough: bool) -> Vec<Part> {
     if thorough {
         vec![
             Part { name: "graphs of up to 3 items, every processing order, up to 2 cancellations", shapes: vec!["single", "chain2", "chain3", "fork3"], all_orders: true, max_cancels: 2, wall: 240 },
-            Part { name: "diamond4, forward/reverse processing order, up to 2 cancellations", shapes: vec!["diamond4"], all_orders: false, max_cancels: 2, wall: 120 },
+            Part { name: "diamond4, every processing order, up to 2 cancellations", shapes: vec!["diamond4"], all_orders: true, max_cancels: 2, wall: 240 },
             Part { name: "single/chain2, forward/reverse processing order, up to 3 cancellations", shapes: vec!["single", "chain2"], all_orders: false, max_cancels: 3, wall: 180 },
         ]
     } else {
@@ -485,6 +488,11 @@ pub fn run(mut rep: Report) -> i32 {
                 judge(mv_ref, &h, ch, &o, table_ref);
             },
         );
+        let mut st = st;
+        if too_much_trouble() {
+            // executions skipped after the cut make fewer decisions than their recorded prefix
+            st.divergences.retain(|d| !d.contains("short run") && !d.contains("made only"));
+        }
         rep.absorb_dfs(part.name, &st, part.max_cancels);
     }
     let cut_short = take_trouble();
